@@ -24,6 +24,13 @@ type boundedResult struct {
 	Cmd      string   `json:"cmd"`
 }
 
+func firstOr(xs []string) string {
+	if len(xs) == 0 {
+		return "(none)"
+	}
+	return xs[0]
+}
+
 func runBounded(repo, verif, prop string) []boundedResult {
 	files, _ := filepath.Glob(filepath.Join(verif, "bounded", "*.go.txt"))
 	var out []boundedResult
